@@ -511,6 +511,8 @@ struct Run<'a> {
     calls: HashMap<u32, tokio::task::JoinHandle<()>>,
     parks: HashMap<u32, Arc<std::sync::Mutex<ParkState>>>,
     conn: Option<Conn>,
+    /// a settle did not reach quiescence: the rest of the script is skipped
+    livelocked: bool,
 }
 
 impl<'a> Run<'a> {
@@ -524,8 +526,11 @@ impl<'a> Run<'a> {
             let sleep = tokio::time::sleep(Duration::from_nanos(1));
             tokio::pin!(sleep);
             let done = std::future::poll_fn(|cx| {
-                if started.elapsed() > Duration::from_secs(20) {
-                    log("ev livelock".to_string());
+                if self.livelocked || started.elapsed() > Duration::from_secs(10) {
+                    if !self.livelocked {
+                        log("ev livelock".to_string());
+                    }
+                    self.livelocked = true;
                     return Poll::Ready(true);
                 }
                 if let Some(f) = self.serve.as_mut() {
@@ -698,7 +703,7 @@ pub async fn run_case(script: &[String]) -> Vec<String> {
         other => panic!("unsupported trait/flavour combination {other:?}"),
     };
 
-    let mut run = Run { serve: Some(serve), serve_res: None, lock, clients: Vec::new(), calls: HashMap::new(), parks: HashMap::new(), conn: None };
+    let mut run = Run { serve: Some(serve), serve_res: None, lock, clients: Vec::new(), calls: HashMap::new(), parks: HashMap::new(), conn: None, livelocked: false };
 
     // distribute clients: every spec gets its own clone (Fin: exactly one client)
     let mut first = Some(first);
@@ -785,6 +790,9 @@ pub async fn run_case(script: &[String]) -> Vec<String> {
     for line in &script[1..] {
         let toks: Vec<&str> = line.split_whitespace().collect();
         if toks.is_empty() || toks[0].starts_with('#') {
+            continue;
+        }
+        if run.livelocked && toks[0] != "end" {
             continue;
         }
         log(format!("op {line}"));
